@@ -97,7 +97,7 @@ struct PktGen {
         note("ICMP(" + std::to_string(k) + ")");
         bool err = (k >= 4 && k <= 6);
         if (err) { Bytes b = r.bytes(r.chance(1, 2) ? 28 + r.below(8) : 100 + r.below(80)); c->inner_pdu(new RawPDU(b.data(), (u32)b.size()));
-            if (r.chance(1, 2)) { c->extensions() = ext_struct(); c->use_length_field(r.below(2)); } }
+            if (k != 6 && r.chance(1, 2)) { c->extensions() = ext_struct(); c->use_length_field(b.size() > 128 ? true : r.below(2)); } }       // without the length field an extension can only sit at offset 128 (RFC 4884 5.5): a longer quoted datagram needs the field      // RFC 4884 extensions exist for types 3, 11, 12 only (a redirect has none: parsers do not look for them)
         else if (r.chance(2, 3) && k != 2 && k != 3) c->inner_pdu(raw());
         return c;
     }
@@ -131,7 +131,7 @@ struct PktGen {
             default: c->nonce(r.bytes(6 + 8 * r.below(2))); }
         note("ICMPv6(" + std::to_string((int)ty) + ",o" + std::to_string(n) + ")");
         if ((ty == ICMPv6::DEST_UNREACHABLE || ty == ICMPv6::TIME_EXCEEDED) && r.chance(1, 2)) {     // error message quoting a datagram, with RFC 4884 extensions
-            Bytes b = r.bytes(r.chance(1, 2) ? 48 + r.below(16) : 128 + r.below(80)); c->inner_pdu(new RawPDU(b.data(), (u32)b.size())); c->extensions() = ext_struct(); c->use_length_field(r.below(2)); return c; }
+            Bytes b = r.bytes(r.chance(1, 2) ? 48 + r.below(16) : 128 + r.below(80)); c->inner_pdu(new RawPDU(b.data(), (u32)b.size())); c->extensions() = ext_struct(); c->use_length_field(b.size() > 128 ? true : r.below(2)); return c; }
         if (!nd && ty != ICMPv6::MLD2_REPORT && ty != ICMPv6::MGM_QUERY && r.chance(2, 3)) c->inner_pdu(raw());
         return c;
     }
